@@ -139,6 +139,9 @@ def run_walk(c):
     try:
         if c["target"] == "current":
             target = lam0
+        elif isinstance(c["target"], str) and c["target"].startswith("near:"):      # a few entries away from where the table is
+            total = c["k"] ** (2 * c["r"] + 1)
+            target = min(1.0, max(0.0, lam0 + int(c["target"][5:]) / total))
         elif c["target"] == "attainable":      # exactly m / k^n, an attainable lambda of this table size
             total = c["k"] ** (2 * c["r"] + 1)
             target = pyrandom.Random(c["seed"] + 5).randint(0, total) / total
@@ -160,6 +163,10 @@ def gen(ctx):
 
 def _gen(ctx):
     rng = ctx.rng
+    # large tables, target a few entries away: "reached" means reached, not close to
+    for (k, r) in ([(4, 4)] if ctx.tier == "quick" else [(4, 4), (2, 9), (12, 2)]):
+        for d in (3, -2):
+            yield dict(kind="walk", k=k, r=r, q=rng.randrange(k), sq=0, iso=0, lam=32, target="near:%d" % d, seed=rng.randrange(10 ** 6), big=1)
     for _ in range(ctx.n(500, 5000)):
         k = rng.choice([2, 2, 3, 3, 4, 5])
         r = rng.choice([0, 1, 1, 2]) if k <= 3 else rng.choice([0, 1, 1, 2 if k == 4 else 1])
@@ -201,6 +208,8 @@ def line(c):
 
 
 def _line(c):
+    if c.get("big"):
+        return None                # tables of > 10^5 entries: oracle only
     if c["kind"] == "rrt":
         res, fake, exc = run_rrt(c)
         if fake.other:
